@@ -230,6 +230,39 @@ def sites_in(f: FuncInfo) -> List[Dict[str, object]]:
     seen = set()
     from rules.common import local_single_defs, substitute_locals
     defs = local_single_defs(f.node)
+    # `self.x = x` (x a parameter that is never re-bound, self.x assigned once): self.x and x name the same object
+    params = {a.arg for a in f.node.args.posonlyargs + f.node.args.args + f.node.args.kwonlyargs}
+    params |= {a.arg for a in (f.node.args.vararg, f.node.args.kwarg) if a is not None}
+    stores: Dict[str, List[ast.AST]] = {}
+    rebound = set()
+    for n in walk_no_nested(f.node):
+        if isinstance(n, ast.Assign):
+            for t in n.targets:
+                d = dotted(t)
+                if d and d.startswith("self.") and d.count(".") == 1:
+                    stores.setdefault(d, []).append(n.value)
+                for x in ast.walk(t):
+                    if isinstance(x, ast.Name):
+                        rebound.add(x.id)
+        elif isinstance(n, (ast.AugAssign, ast.AnnAssign)):
+            d = dotted(n.target)
+            if d:
+                stores.setdefault(d, []).append(None)
+            for x in ast.walk(n.target):
+                if isinstance(x, ast.Name):
+                    rebound.add(x.id)
+        elif isinstance(n, (ast.For,)):
+            for x in ast.walk(n.target):
+                if isinstance(x, ast.Name):
+                    rebound.add(x.id)
+    self_alias = {d: v[0].id for d, v in stores.items() if len(v) == 1 and isinstance(v[0], ast.Name) and v[0].id in params and v[0].id not in rebound}
+
+    class _SelfAlias(ast.NodeTransformer):
+        def visit_Attribute(self, node):
+            d = dotted(node)
+            if d in self_alias and isinstance(node.ctx, ast.Load):
+                return ast.Name(id=self_alias[d], ctx=ast.Load())
+            return self.generic_visit(node)
     pm_ = parents_map(f.node)
 
     def loops_of(node) -> List[ast.AST]:
@@ -276,6 +309,7 @@ def sites_in(f: FuncInfo) -> List[Dict[str, object]]:
             if extra:
                 m.update(extra)
             x = substitute_locals(e, ldefs)
+            x = _SelfAlias().visit(x)
             x = Renamer(m).visit(_copy.deepcopy(x))
             return _rename_comprehensions(x)
         ctx_f = B.mk_and([B.parse_pol(C(ct), cp) for ct, cp in tests[1:]])
